@@ -234,10 +234,20 @@ def _r4_constructors(run):
     sites = toastgeom.tile_construction_sites(project)
     run.call_sites += len(sites)
     bad = [(f, c, kind) for f, c, kind in sites if f.qual not in allowed]
+    def rewraps(c_):
+        # a tile made from an existing tile with other corners (`t._replace(corners=..)`, Tile(t.pos, f(t.corners), ..))
+        if isinstance(c_.func, ast.Attribute) and c_.func.attr == "_replace":
+            return True
+        corners = c_.args[1] if len(c_.args) > 1 else next((k.value for k in c_.keywords if k.arg == "corners"), None)
+        return corners is not None and any(isinstance(x, ast.Attribute) and x.attr == "corners" for x in ast.walk(corners))
     if bad:
         for f, c, kind in bad:
-            run.violated("C04.R4", f, c, "%s makes a Tile with corners itself (%s); tiles must come from _create_level1_tiles / _div4 so that "
-                         "every route yields identical geometry" % (f.short, kind), kind="tile-constructed-elsewhere")
+            if rewraps(c):
+                run.violated("C04.R4", f, c, "%s makes a Tile with corners itself (%s); tiles must come from _create_level1_tiles / _div4 so that "
+                             "every route yields identical geometry" % (f.short, kind), kind="tile-constructed-elsewhere")
+            else:
+                run.undecided("C04.R4", f, c, "%s is a further producer of tiles (%s) beside _create_level1_tiles / _div4: that its geometry is identical to the "
+                              "subdivision's is not decided" % (f.short, kind), kind="other-tile-producer")
     else:
         run.holds("C04.R4", project.fn(T + "._div4"), None, "Tiles with corners are made only by _create_level1_tiles and _div4",
                   sites=len(sites))
@@ -252,10 +262,21 @@ def _local_reach(project, f, seen=None):
     seen = seen if seen is not None else set()
     for c in own_calls(f.node):
         d = dotted(c.func) or ""
+        targets = []
         g = project.funcs.get(T + "." + d)
-        if g is not None and g.qual not in seen:
-            seen.add(g.qual)
-            _local_reach(project, g, seen)
+        if g is not None:
+            targets.append(g)
+        # a class of the module being instantiated: its constructor; a method call `x.m(..)`: every method of that name in the module
+        # (the receiver's class is not tracked here -- over-approximating the route can only make this rule more lenient)
+        ctor = project.funcs.get(T + "." + d + ".__init__")
+        if ctor is not None:
+            targets.append(ctor)
+        if isinstance(c.func, ast.Attribute):
+            targets += [h for h in project.functions_in(T) if h.cls is not None and h.name == c.func.attr]
+        for g in targets:
+            if g.qual not in seen:
+                seen.add(g.qual)
+                _local_reach(project, g, seen)
     return seen
 
 
@@ -315,7 +336,7 @@ def _r5_routes(run):
         reach = _local_reach(project, f)
         missing = [x for x in need if T + "." + x not in reach]
         if missing:
-            run.violated("C04.R5", f, None, "%s never reaches %s: this route builds or finds its tiles differently from the others" % (f.short, missing),
+            run.undecided("C04.R5", f, None, "%s never reaches %s: this route builds or finds its tiles by other means than the others -- that they agree is not decided" % (f.short, missing),
                          kind="route-" + f.name)
         else:
             run.holds("C04.R5", f, None, "%s obtains tiles only through %s" % (f.short, " and ".join(need)))
